@@ -26,6 +26,9 @@ func init() {
 		if profile == "numeric" {
 			return NumericCase(r, id)
 		}
+		if profile == "long" {
+			return LongCase(r, id)
+		}
 		p := Profiles[profile]
 		if p == nil {
 			return nil
